@@ -209,6 +209,49 @@ def _guard(rd: Reader):
     return None
 
 
+def _guard_by_cases(rd: Reader, width: int):
+    """(refused(width-1), refused(width), refused(width+1)) for a non-empty
+    file whose first row has that many fields: is some
+    FileInterfaceException raised before the conversion?  None if a raise
+    condition cannot be evaluated."""
+    raises = [e for e in rd.r.of_kind("raise")
+              if "FileInterfaceException" in (e.data.get("exc_name") or "")
+              and not e.tries]
+    first_len = tm.call(tm.glob("builtins.len"),
+                        (tm.sub(rd.raw, const(0)),), ())
+    nonempty = tm.call(tm.glob("builtins.len"), (rd.raw,), ())
+    out = []
+    for L in (width - 1, width, width + 1):
+        def env(a, L=L):
+            if a is rd.raw:
+                return True
+            if a.op == "exc":
+                return False      # no conversion error: the shape guards only
+            if a.op == "cmp":
+                def val(t):
+                    if t is first_len:
+                        return L
+                    if t is nonempty:
+                        return 5
+                    if tm.is_const(t) and isinstance(tm.const_val(t), int):
+                        return tm.const_val(t)
+                    return None
+                x, y = val(a.args[1]), val(a.args[2])
+                if x is not None and y is not None:
+                    return {"Lt": x < y, "LtE": x <= y, "Gt": x > y,
+                            "GtE": x >= y, "Eq": x == y,
+                            "NotEq": x != y}.get(a.args[0])
+            return None
+        vals = [tm.fold(e.live, env) for e in raises]
+        if any(v is True for v in vals):
+            out.append(True)
+        elif all(v is False for v in vals):
+            out.append(False)
+        else:
+            return None
+    return tuple(out)
+
+
 FLIPPED = {"Eq": "Eq", "NotEq": "NotEq", "Lt": "Gt", "Gt": "Lt",
            "LtE": "GtE", "GtE": "LtE"}
 NEGATED = {"Eq": "NotEq", "NotEq": "Eq", "Lt": "GtE", "GtE": "Lt",
@@ -245,6 +288,15 @@ def check(ctx):
         # ------------------------------------------------------- C07.5 a,b,c
         g = _guard(rd)
         okg = g is not None and (g[0], g[1]) == (grel, gconst)
+        sem = _guard_by_cases(rd, gconst)
+        if sem is not None:
+            # decided on the three first-row lengths around the format's
+            # width (one, two or more guard statements alike)
+            want = (True, False, True) if grel == "NotEq" else \
+                (True, False, False)
+            okg = sem == want
+            if g is None and okg:
+                g = (grel, gconst, None, None, True)
         ctx.ob("C07.5", rd.f, okg,
                f"{name}: rows must have "
                f"{'exactly' if grel == 'NotEq' else 'at least'} {gconst} "
